@@ -287,6 +287,72 @@ PROPS.update({
     },
 })
 
+PROPS.update({
+    "C10": {
+        "engine": "c10",
+        "level": "exploration",
+        "profiles": ["release", "checked"],
+        "budget": {"quick": 10, "thorough": 120},
+        "claim": "Edit histories of 1-8 steps (set/extend/remove comments, add/remove pictures and application blocks, set/add/remove padding, reorder, no-op, callback error after editing, validation failure) are applied with update_file (in-memory object positioned after 0/3/100 junk bytes, separate rebuilt target) and update(path) to generator-made files with 0, 1 or several padding blocks in first/middle/last position; a sweep sizes the edit so that the growth equals the first padding block's size + delta for every delta in -8..+8, and three cases sit at the 2^24-1 padding limit. After every step a byte-image model is checked: in place => same length, same first-frame offset, identical bytes from there on, junk untouched, blocks read back == the list captured at the end of the callback apart from the first padding's size; rebuilt => original untouched and new file == serialised edited list followed by the identical frame bytes; error => original byte-identical; always: reference decoder and crate decoder return the same PCM as before.",
+        "note": "the expected rebuilt metadata is produced with the crate's own write_blocks from the captured list (its correctness is C11's subject)",
+        "technique": "runtime monitoring: edit histories checked against a byte-image reference model after every step",
+        "design_ref": "DESIGN.md section 4 C10",
+        "rule": "a case = one update step (file state, edit); NON-TRIVIAL when the step completed and all model comparisons ran; DISTINCT by hash(file before, edit)",
+        "quotas": {
+            "in-place, rebuilt and refused updates observed": lambda m: h(m, "update_outcome", "in-place") > 100 and h(m, "update_outcome", "rebuilt") > 100 and any(k.startswith("err:") for k in m["hist"].get("update_outcome", {})),
+            "every delta -8..+8 around the exact fit": lambda m: keys(m, "exact_fit_delta") == 17,
+            "both update APIs": lambda m: keys(m, "api") == 2,
+        },
+    },
+    "C16": {
+        "engine": "c16",
+        "level": "exploration",
+        "profiles": ["release", "checked"],
+        "budget": {"quick": 10, "thorough": 120},
+        "claim": "Sequences of 1-20 FlacStreamWriter::write calls with independently varying sample rate (table, kHz, Hz and daHz codings), 1-8 channels, all subset bit depths and lengths 1..65535 are produced; the independent decoder must decode each emitted frame from its own header alone (raw mode, strict rules) to exactly what was written. The concatenation - clean, with sync-free garbage (no FF F8..FB pair, possibly ending in FF) or with sync-rich garbage before/between/after frames - is read back by FlacStreamReader through a BufRead whose buffer boundaries are controlled: whole, 1-byte buffers, capped buffers, random boundaries, a boundary at each frame's sync bytes, and for small streams EVERY single split position. Oracle: returned frames (errors skipped) are a subsequence of the written frames in order; without sync-like garbage all frames are returned. A returned frame not in the model is first checked for a coincidental CRC-valid frame inside the garbage (case discarded).",
+        "note": "model = list of written frames; frame boundaries from flacref raw-mode decoding",
+        "technique": "runtime monitoring: written-frame list as reference model for the raw stream reader over controlled buffer segmentations",
+        "design_ref": "DESIGN.md section 4 C16",
+        "rule": "a case = (frame sequence + garbage, buffer segmentation); NON-TRIVIAL when the reader's output was compared with the model; DISTINCT by hash(stream bytes, segmentation)",
+        "quotas": {
+            "all garbage classes": lambda m: keys(m, "garbage") == 3,
+            "all segmentations incl. every-position splits": lambda m: keys(m, "segmentation") >= 6,
+            "all four subset sample-rate coding families": lambda m: sum(1 for k in m["hist"].get("rate_code", {}) if k in ("12", "13", "14")) == 3 and keys(m, "rate_code") >= 8,
+        },
+    },
+    "C17": {
+        "engine": "c17",
+        "level": "exploration",
+        "profiles": ["release", "checked"],
+        "budget": {"quick": 10, "thorough": 120},
+        "claim": "Individual frames - the crate's own output, generator-made valid frames over all grammar alternatives (incl. non-minimal coded numbers and non-zero padding), generator malform knobs with valid checksums and CRC-repaired mutations - are given to the structural parser (Frame::read) and, wrapped as a one-frame file whose STREAMINFO total equals the frame's block size, to the streaming decoder. Oracle: both accept or both reject; each Subframe::decode() yields exactly block-size samples; samples after the harness's own inverse decorrelation equal the streaming decoder's output (and the target PCM for valid frames) whenever the subframe values lie inside their bit depth; Frame::write reproduces the original bytes whenever the original used a minimal-length number, zero padding and a zero reserved bit (as judged by the reference decoder).",
+        "note": "accept/reject parity is judged per frame with the stream-level rules neutralised by construction; frames whose values leave the bit depth are compared for parity only",
+        "technique": "runtime monitoring: differential oracle between the crate's two frame parsers plus independent inverse decorrelation and byte-level re-serialisation check",
+        "design_ref": "DESIGN.md section 4 C17",
+        "rule": "a case = one frame; NON-TRIVIAL when both parsers accepted it and samples / bytes were compared; DISTINCT by hash of the frame bytes",
+        "quotas": {
+            "frames accepted by both and rejected by both": lambda m: h(m, "verdicts", "both-accept") > 1000 and h(m, "verdicts", "both-reject") > 200,
+            "all four frame origins": lambda m: keys(m, "frame_origin") == 4,
+            "byte-identical re-serialisations observed": lambda m: h(m, "reserialised", "byte-identical") > 1000,
+        },
+    },
+    "C19": {
+        "engine": "c19",
+        "level": "exploration",
+        "profiles": ["release"],
+        "budget": {"quick": 10, "thorough": 120},
+        "claim": "Adversarial PCM (full-scale white noise, alternating extremes, Rice breakers, wasted-bit noise, anti-correlated stereo, full-scale squares, impulses, overflow ramps) and constant / silent blocks are encoded over the random option space (all depths and channel counts, block 16..65535, fast/exhaustive correlation, LPC none..32, partition order 0..15); frame sizes are read from the independent decoder's frame table. Oracle per frame: bytes <= 24 + 5*channels + ceil((block * channels * bps + [stereo-decorrelated]*block)/8); per block whose channels are all constant: bytes <= 18 + 48*channels. The two allowances are fixed in DESIGN.md and not tuned per run; the evidence reports the worst observed ratio to the bound.",
+        "note": "bounds are the ones fixed in DESIGN.md section 4 C19",
+        "technique": "runtime monitoring: per-frame size bound checked on the reference decoder's frame table over adversarial workloads",
+        "design_ref": "DESIGN.md section 4 C19",
+        "rule": "a case = (options, front-end, adversarial PCM recipe); NON-TRIVIAL when the file was produced and every frame measured; DISTINCT by hash of the file",
+        "quotas": {
+            ">= 1000 frames measured": lambda m: h(m, "frames_measured") >= 1000,
+            ">= 100 constant blocks measured": lambda m: h(m, "constant_blocks_measured") >= 100,
+        },
+    },
+})
+
 
 # properties not (yet) claimed: id -> reason
 NOT_APPLICABLE = {f"C{n:02d}": "check not built yet (framework under construction; see DESIGN.md section 4 for the planned monitor)" for n in range(1, 21)}
